@@ -777,7 +777,7 @@ def correspondence(ctx):
     from snaxc.phs.decode import decode_abstract_graph
     rng = ctx.rng
     n = ctx.n(100, 1500)
-    cases = {k: [] for k in ("enc", "app", "dec", "tsw")}
+    cases = {k: [] for k in ("enc", "app", "dec", "tsw", "wf")}
     meta = {k: [] for k in cases}
     conv = Conv()
     for i in range(n):
@@ -815,6 +815,10 @@ def correspondence(ctx):
             cases["tsw"].append(f"({c_pe(cG)}, {c_optnat(tsw)})")
             meta["tsw"].append(dict(texts=texts, order=order, step=step, err=err))
             ctx.count({"L1": "true_switches"}, bool(tsw), None, "L1:true_switches")
+            # the structural well-formedness the theorems assume of a merged graph (decidable, checked here on
+            # every real merged graph)
+            cases["wf"].append(c_pe(cG))
+            meta["wf"].append(dict(texts=texts, order=order, step=step))
             # decode every kernel of the history (also the ones not merged yet: error / default paths)
             for kj in range(len(texts)):
                 gj = real_encode(parse_generic(texts[kj]))
@@ -829,10 +833,11 @@ def correspondence(ctx):
         "app": "fun c : pe * pe * option pe => match c with (g, G, r) => opt_eqb pe_eqb (append g G) r end",
         "dec": "fun c : pe * pe * option (list Z) => match c with (G, g, r) => opt_eqb (list_eqb Z.eqb) (decode G g) r end",
         "tsw": "fun c : pe * option nat => opt_eqb Nat.eqb (true_switches (fst c)) (snd c)",
+        "wf": "pe_wf",
     }
     # shards: few files (every coqc start costs seconds), each with one list per kind
     types = {"enc": "body * option pe", "app": "pe * pe * option pe", "dec": "pe * pe * option (list Z)",
-             "tsw": "pe * option nat"}
+             "tsw": "pe * option nat", "wf": "pe"}
     kinds = list(tests)
     NSH = 4 if not ctx.thorough else 8
     shards = [{k: [] for k in kinds} for _ in range(NSH)]
